@@ -23,9 +23,14 @@
    taken does not move (flock blocks).  [run true] is the code as written, [run false] the same
    code without the lock (the mutation "drop lockStatusFile"), kept to prove what breaks.
 
-   Save (used once, by AllocateUnit, before anybody else knows the unit) is Lock ; open with
-   O_TRUNC ; Write ; Unlock of the in-memory record: in the model an update whose function
-   ignores the stored record.
+     Save(filename)  (AllocateUnit, BaseWorkUnit.Save)
+       Lock       (same)
+       OpenTrunc  os.OpenFile(filename, O_CREATE|O_WRONLY|O_TRUNC): the file is empty from here
+       Write      json.Marshal of the in-memory record ; Write
+       Unlock     file.Close ; flock(LOCK_UN) ; lockFile.Close
+   A Save does not read: it is an update whose function is constant, the saver's in-memory record.
+   [step_early] is Save with the truncating open BEFORE the lock (a seeded mutation), kept to
+   prove what breaks.
 
    The record type is a parameter; the file holds a whole record or nothing ([FEmpty]: absent or
    zero length — the state between Trunc and Write). *)
@@ -39,20 +44,22 @@ Fixpoint upd {A} (n : nat) (x : A) (l : list A) : list A :=
   | h :: t, S n' => h :: upd n' x t
   end.
 
-Inductive label := SLock | SOpen | SRead | SApply | STrunc | SWrite | SUnlock.
+Inductive label := SLock | SOpen | SRead | SApply | STrunc | SWrite | SUnlock | SOpenTrunc.
 
 Section LockModel.
 Variable R : Type.
 
 Inductive fcontent := FEmpty | FRec (r : R).
 
-Inductive op := OUpd (f : R -> R) | OLoad.
+Inductive op := OUpd (f : R -> R) | OLoad | OSave.
 
 Inductive phase :=
 | Idle
 | ULocked (f : R -> R) | UOpened (f : R -> R) | UReadDone (f : R -> R)
 | UApplied (f : R -> R) | UTrunced (f : R -> R) | UWritten (f : R -> R)
-| LLocked | LOpened | LReadDone.
+| LLocked | LOpened | LReadDone
+| SvLocked | SvTrunced | SvWritten
+| SvPre.   (* only in [step_early]: the file is already truncated, the lock not yet taken *)
 
 Record proc := mkProc { p_ops : list op; p_phase : phase; p_mem : R }.
 
@@ -71,7 +78,7 @@ Definition read_into (file : fcontent) (m : R) : R :=
 Definition is_some {A} (o : option A) : bool := match o with Some _ => true | None => false end.
 
 Definition first_phase (o : op) : phase :=
-  match o with OUpd f => ULocked f | OLoad => LLocked end.
+  match o with OUpd f => ULocked f | OLoad => LLocked | OSave => SvLocked end.
 
 (* one step of process [p]; [locking = false] is the variant without lockStatusFile *)
 Definition step (locking : bool) (p : nat) (c : conf) : conf :=
@@ -110,8 +117,36 @@ Definition step (locking : bool) (p : nat) (c : conf) : conf :=
              (c_reads c ++ [(p, c_file c)]) (c_trace c ++ [(p, SRead)])
     | LReadDone =>
       mkConf (c_file c) None (set Idle m) (c_order c) (c_reads c) (c_trace c ++ [(p, SUnlock)])
+    | SvLocked =>
+      mkConf FEmpty (c_lock c) (set SvTrunced m) (c_order c) (c_reads c) (c_trace c ++ [(p, SOpenTrunc)])
+    | SvTrunced =>
+      mkConf (FRec m) (c_lock c) (set SvWritten m) (c_order c) (c_reads c) (c_trace c ++ [(p, SWrite)])
+    | SvWritten =>
+      mkConf (c_file c) None (set Idle m) (c_order c) (c_reads c) (c_trace c ++ [(p, SUnlock)])
+    | SvPre => c
     end
   end.
+
+(* the mutation "Save truncates before it takes the lock": OpenTrunc ; Lock ; Write ; Unlock.
+   Everything else as in [step true]. *)
+Definition step_early (p : nat) (c : conf) : conf :=
+  match nth_error (c_procs c) p with
+  | None => c
+  | Some pr =>
+    match p_phase pr, p_ops pr with
+    | Idle, OSave :: rest =>
+      mkConf FEmpty (c_lock c) (upd p (mkProc rest SvPre (p_mem pr)) (c_procs c))
+             (c_order c) (c_reads c) (c_trace c ++ [(p, SOpenTrunc)])
+    | SvPre, _ =>
+      if is_some (c_lock c) then c
+      else mkConf (c_file c) (Some p) (upd p (mkProc (p_ops pr) SvTrunced (p_mem pr)) (c_procs c))
+                  (c_order c ++ [(p, OSave)]) (c_reads c) (c_trace c ++ [(p, SLock)])
+    | _, _ => step true p c
+    end
+  end.
+
+Definition run_early (sched : list nat) (c : conf) : conf :=
+  fold_left (fun c p => step_early p c) sched c.
 
 Definition run (locking : bool) (sched : list nat) (c : conf) : conf :=
   fold_left (fun c p => step locking p c) sched c.
@@ -139,6 +174,7 @@ Definition atomic_op (a : astate) (po : nat * op) : astate :=
     match snd po with
     | OUpd f => mkA (FRec (f m')) (upd (fst po) (f m') (a_mems a)) (a_reads a ++ [(fst po, a_file a)])
     | OLoad => mkA (a_file a) (upd (fst po) m' (a_mems a)) (a_reads a ++ [(fst po, a_file a)])
+    | OSave => mkA (FRec m) (a_mems a) (a_reads a)
     end
   end.
 
@@ -153,7 +189,11 @@ Fixpoint upd_fns (order : list (nat * op)) : list (R -> R) :=
   | [] => []
   | (_, OUpd f) :: r => f :: upd_fns r
   | (_, OLoad) :: r => upd_fns r
+  | (_, OSave) :: r => upd_fns r
   end.
+
+Definition is_save (o : op) : bool := match o with OSave => true | _ => false end.
+Definition no_saves (order : list (nat * op)) : bool := forallb (fun po => negb (is_save (snd po))) order.
 
 Fixpoint ops_of (q : nat) (order : list (nat * op)) : list op :=
   match order with
@@ -166,7 +206,7 @@ Definition apply_all (fs : list (R -> R)) (r : R) : R := fold_left (fun r f => f
 End LockModel.
 
 Arguments FEmpty {R}. Arguments FRec {R} r.
-Arguments OUpd {R} f. Arguments OLoad {R}.
+Arguments OUpd {R} f. Arguments OLoad {R}. Arguments OSave {R}.
 Arguments mkProc {R}. Arguments mkConf {R}. Arguments mkA {R}.
 Arguments c_file {R}. Arguments c_lock {R}. Arguments c_procs {R}. Arguments c_order {R}.
 Arguments c_reads {R}. Arguments c_trace {R}.
@@ -179,6 +219,8 @@ Arguments upd_fns {R}. Arguments ops_of {R}. Arguments apply_all {R}. Arguments 
 Arguments Idle {R}. Arguments ULocked {R} f. Arguments UOpened {R} f. Arguments UReadDone {R} f.
 Arguments UApplied {R} f. Arguments UTrunced {R} f. Arguments UWritten {R} f.
 Arguments LLocked {R}. Arguments LOpened {R}. Arguments LReadDone {R}. Arguments first_phase {R}.
+Arguments SvLocked {R}. Arguments SvTrunced {R}. Arguments SvWritten {R}. Arguments SvPre {R}.
+Arguments step_early {R}. Arguments run_early {R}. Arguments is_save {R}. Arguments no_saves {R}.
 
 (* ---------- the instance exercised by the harness: counters ----------
    record = (shared counter, one counter per writer).  Writer [w] increments the shared counter
@@ -210,7 +252,7 @@ Definition fc_eqb (a b : fcontent crec) : bool :=
 Definition label_eqb (a b : label) : bool :=
   match a, b with
   | SLock, SLock | SOpen, SOpen | SRead, SRead | SApply, SApply
-  | STrunc, STrunc | SWrite, SWrite | SUnlock, SUnlock => true
+  | STrunc, STrunc | SWrite, SWrite | SUnlock, SUnlock | SOpenTrunc, SOpenTrunc => true
   | _, _ => false
   end.
 
@@ -222,10 +264,10 @@ Fixpoint list_eqb {A} (eq : A -> A -> bool) (a b : list A) : bool :=
   end.
 
 (* the programs the harness helpers run *)
-Inductive kop := KIncr | KLoad.
+Inductive kop := KIncr | KLoad | KSave.
 
 Definition kop_op (w : nat) (k : kop) : op crec :=
-  match k with KIncr => OUpd (incr w) | KLoad => OLoad end.
+  match k with KIncr => OUpd (incr w) | KLoad => OLoad | KSave => OSave end.
 
 Fixpoint kprogs_from (nw w : nat) (ps : list (list kop)) : list (list (op crec) * crec) :=
   match ps with
@@ -241,9 +283,10 @@ Definition kprogs (nw : nat) (progs : list (list kop)) := kprogs_from nw O progs
    goroutines, [file0] the record stored before the run (None: no file), [sched]/[obs] the
    projected system-call trace: who stepped and which model step the calls amount to, [reads]
    what every Read step returned according to the helpers, [final] the file afterwards.
-   CStress: one stress round.  [order] = the writers in the order in which their updates saw
-   the shared counter (0,1,2,…), [final] the file afterwards, [loads] the records that
-   concurrent Loads returned. *)
+   CStress: one stress round, or one segment of it (the updates between two Saves).  [file0] =
+   the record the segment starts from, [order] = the writers in the order in which their updates
+   saw the record of their predecessor, [final] the record after the last of them, [loads] the
+   records that concurrent Loads (and the updates themselves) were given. *)
 Inductive lock_case :=
 | CTrace (nw : nat) (file0 : option crec) (progs : list (list kop)) (obs : list (nat * label))
          (reads : list (nat * option crec)) (final : option crec)
@@ -267,7 +310,8 @@ Definition lock_check (c : lock_case) : bool :=
   | CStress nw file0 order final loads =>
     let a0 := a_init (fc_of file0) (map (fun _ => ([], crec0 nw)) (seq 0 nw)) in
     let ops := map (fun w => (w, OUpd (incr w))) order in
+    let base := match file0 with Some r => fst r | None => 0 end in
     forallb (fun w => Nat.ltb w nw) order
     && fc_eqb (a_file (atomic_run a0 ops)) (FRec final)
-    && forallb (fun l => fc_eqb (a_file (atomic_run a0 (firstn (N.to_nat (fst l)) ops))) (FRec l)) loads
+    && forallb (fun l => fc_eqb (a_file (atomic_run a0 (firstn (N.to_nat (fst l - base)) ops))) (FRec l)) loads
   end.
